@@ -81,6 +81,17 @@ def run(tier):
                 obs["status"] = e["status"]
     if cur is not None and obs is not None:
         recs.append({"c": cur, "o": obs})
+    # real parallelism (no virtual time): concurrent generations through the real middleware + balancer
+    ibin = vlib.go_build("idsim", "internal/zz_verif/idsim", ["idsim/main.go"], sd,
+                         extra_overlay={"internal/loadbalancer/zz_verif_export.go": "accessors/lb_verif_export.go"})
+    npar = 100000 if tier == "thorough" else 30000
+    for k in range(3 if tier == "thorough" else 2):
+        bp = os.path.join(sd, "idburst%d.json" % k)
+        vlib.run([ibin, str(npar), bp], timeout=600)
+        b = json.load(open(bp))["burst"]
+        recs.append({"burst": {"n": b["n"], "rids": b["rids"], "tids": b["tids"]}})
+        if b["mismatch"]:
+            recs.append({"burst": {"n": b["n"], "rids": ["backend-saw-different-id"] * 2, "tids": b["tids"][:2]}})
     jp = os.path.join(sd, "ids.joined.ndjson")
     vlib.write_ndjson(jp, recs)
     chk.cov["traces_validated_against_impl"] = len(recs)
@@ -97,7 +108,7 @@ def run(tier):
     chk.sample(recs[0])
     chk.sample({"c": recs[len(recs) // 2].get("c")})
     chk.cov["exhaustive"] = True
-    chk.cov["concurrent_generations"] = nb * 2
+    chk.cov["concurrent_generations"] = nb * 2 + npar * 2
     chk.cov["rule"] = "every case of spec/IdHeaders.tla run through the real middleware + chain + balancer (lbsim); bursts of concurrent generations for uniqueness"
     chk.assumptions += ["client values are wire-realistic (no surrounding blanks: net/http trims them before any handler runs)",
                         "the case request's events are joined by request id into one record (pure join)"]
